@@ -21,7 +21,7 @@ def _grid(kind, G, seed):
     if kind == 'O':
         g = space.grid('E', G, seed).copy()
         g[0] = -1e-17
-        g[-1] = 1.0 + 1e-16
+        g[-1] = np.nextafter(1.0, 2.0)        # 1.0 + 1e-16 would round to 1.0: the smallest real overshoot is one ulp
         return g
     return space.grid(kind, G, seed)
 
